@@ -8,8 +8,9 @@ package stack
 
 // ASSUMED (not verified; used by callers in protocol/transport/tcp): cloning a route copies
 // it and touches nothing but the reference count of the endpoint it refers to.
-//@ func (*Route).Clone props C05 C04
+//@ func (*Route).Clone props C05 C04 C13
 //@   trusted
+//@   ensures result.LocalAddress == r.LocalAddress && result.RemoteAddress == r.RemoteAddress && result.NetProto == r.NetProto
 //@   modifies structfamily(referencedNetworkEndpoint)
 
 // ---------------------------------------------------------------------------
